@@ -392,6 +392,21 @@ class Swap(Simple, SymmetryStrategy[WC, W]):
         yield swap_word(objs[0])
 
 
+class SwapMarked(Swap):
+    """The swap symmetry from a strategy that says its one-child rules are *not* equivalences (can_be_equivalent False):
+    the classes it joins share an equivalence label in the rule database, but a specification must keep the rule as a rule
+    (this is what EqPathParallelSpecFinder exists for: 'nonequivalent classes sharing equivalence labels')."""
+
+    def can_be_equivalent(self):
+        return False
+
+    def formal_step(self):
+        return "swap letters (not an equivalence)"
+
+    def __repr__(self):
+        return "SwapMarked()"
+
+
 def cycle_word(w, k=1):
     m = {"a": "b", "b": "c", "c": "a"}
     for _ in range(k):
@@ -489,6 +504,57 @@ class ExpandTrim(Simple, DisjointUnionStrategy[WC, W]):
         idx = k if len(w) == len(c.prefix) else (k - 1 - c.alphabet.index(w[len(c.prefix)]))
         return tuple(w if i == idx else None for i in range(len(children)))
 
+
+
+class ExpandMerge(Simple, DisjointUnionStrategy[WC, W]):
+    """C(p) = {p} + C(p.a) + C(p.b) + ... where a child on which two statistics can only take the same value (they agree on
+    the child's prefix and no letter in which they differ can still follow) keeps one of them: several parent statistics are
+    mapped onto one child statistic, on some children only - so the parent has objects (from the other children) on which
+    the merged statistics differ."""
+
+    def __init__(self, ignore_parent=False, inferrable=True, possibly_empty=True, workable=True):
+        super().__init__(ignore_parent=ignore_parent, inferrable=inferrable, possibly_empty=possibly_empty, workable=workable)
+
+    @staticmethod
+    def _groups(c, q, atom):
+        """for the child with prefix q: parent statistic name -> name of the statistic that represents it on the child"""
+        fut = set() if atom else future_letters(c, q)
+        rep = {}
+        kept = []
+        for n, l in c.stats:
+            for m, l2 in kept:
+                if sum(x in l for x in q) == sum(x in l2 for x in q) and not ((set(l) ^ set(l2)) & fut):
+                    rep[n] = m
+                    break
+            else:
+                kept.append((n, l))
+                rep[n] = n
+        return rep, tuple(kept)
+
+    def _children(self, c):
+        out = [(c.prefix, True)] + [(c.prefix + a, False) for a in c.alphabet]
+        return [(q, atom) + self._groups(c, q, atom) for q, atom in out]
+
+    def decomposition_function(self, c):
+        if c.just_prefix or len(c.stats) < 2:
+            return None
+        kids = self._children(c)
+        if all(len(kept) == len(c.stats) for _, _, _, kept in kids):
+            return None
+        return tuple(c.with_(prefix=q, just_prefix=atom, stats=kept) for q, atom, _, kept in kids)
+
+    def extra_parameters(self, c, children=None):
+        return tuple(dict(rep) for _, _, rep, _ in self._children(c))
+
+    def formal_step(self):
+        return "expand by next letter, merging statistics that coincide on a child"
+
+    def forward_map(self, c, w, children=None):
+        idx = 0 if len(w) == len(c.prefix) else 1 + c.alphabet.index(w[len(c.prefix)])
+        return tuple(w if i == idx else None for i in range(len(c.alphabet) + 1))
+
+    def __repr__(self):
+        return "ExpandMerge()"
 
 
 class RemoveFrontHidden(RemoveFront):
@@ -678,6 +744,32 @@ class RemoveFrontRename(RemoveFront):
         return "remove front of prefix, renaming statistics"
 
 
+class RemoveFrontMerge(RemoveFront):
+    """RemoveFront whose second factor keeps one statistic for every group of statistics that can only take the same value
+    on it (they agree on its prefix and no letter in which they differ can still follow): a factor of a product onto whose
+    single statistic several parent statistics are mapped, while the first factor (the removed front) keeps them apart."""
+
+    def decomposition_function(self, c):
+        kids = RemoveFront.decomposition_function(self, c)
+        if kids is None or len(c.stats) < 2:
+            return None
+        rep, kept = ExpandMerge._groups(kids[1], kids[1].prefix, False)
+        if len(kept) == len(c.stats):
+            return None
+        return (kids[0], kids[1].with_(stats=kept))
+
+    def extra_parameters(self, c, children=None):
+        kids = RemoveFront.decomposition_function(self, c)
+        rep, _ = ExpandMerge._groups(kids[1], kids[1].prefix, False)
+        return ({n: n for n, _ in c.stats}, dict(rep))
+
+    def formal_step(self):
+        return "remove front of prefix, merging statistics that coincide on the rest"
+
+    def __repr__(self):
+        return "RemoveFrontMerge()"
+
+
 class SplitMonotone(Simple, CartesianProductStrategy[WC, W]):
     """A product of two non-atoms (several size compositions): words over {a,b} avoiding ba are a^i b^j,
     C('', {ba}) = C('', {b}) x C('', {a})."""
@@ -727,6 +819,31 @@ class RemoveThenExpandFactory(StrategyFactory[WC]):
 
     def __repr__(self):
         return "RemoveThenExpandFactory()"
+
+    @classmethod
+    def from_dict(cls, d):
+        return cls()
+
+
+class LookaheadFactory(StrategyFactory[WC]):
+    """Eager one-step look-ahead: for a class C it yields (for the class with empty prefix only) the strategy Expand and,
+    for every non-empty non-atom child D of C's expansion, the *ready rule* Expand()(D) - a rule whose parent and children do not include the class the factory
+    was applied to (the searcher supports rules of other classes; a database that recomputes rules must find them too)."""
+
+    def __call__(self, c):
+        if c.just_prefix:
+            return
+        if not c.prefix:
+            yield Expand()  # only the class with empty prefix gets its own expansion: every other rule is a look-ahead rule
+        for d in Expand().decomposition_function(c):
+            if not d.just_prefix and not d.is_empty() and RemoveFront().decomposition_function(d) is None:
+                yield Expand()(d)
+
+    def __str__(self):
+        return "look-ahead expansion factory"
+
+    def __repr__(self):
+        return "LookaheadFactory()"
 
     @classmethod
     def from_dict(cls, d):
@@ -840,6 +957,24 @@ class MinimizePatterns(Simple, DisjointUnionStrategy[WC, W]):
     @classmethod
     def from_dict(cls, d):
         return cls(**d)
+
+
+class MinimizeOneWay(MinimizePatterns):
+    """The same rule as MinimizePatterns (redundant class -> minimal class) from a strategy that declares itself one-way
+    (reversible, not two-way): together with MinimizePatterns the same (parent, child) key is produced once as a one-way
+    rule and once as a two-way equivalence, in either order."""
+
+    def __init__(self, ignore_parent=False, inferrable=True, possibly_empty=False, workable=True):
+        super().__init__(ignore_parent=ignore_parent, inferrable=inferrable, possibly_empty=possibly_empty, workable=workable)
+
+    def is_two_way(self, comb_class):
+        return False
+
+    def formal_step(self):
+        return "minimize patterns (one way)"
+
+    def __repr__(self):
+        return "MinimizeOneWay()"
 
 
 class AddRedundant(Simple, DisjointUnionStrategy[WC, W]):
@@ -1101,7 +1236,7 @@ def basic_pack(**kw):
 def make_pack(sym=False, inf=False, merge=False, iterative=False, factory=False, parent_factory=False,
               prefix_verified=None, prefix_verified_rev=None, empty_prefix_verified=False, two_sets=False, no_initial=False, name=None, expand=True,
               split=False, oneway=False, lazy=False, trim=False, rename=False, mono=False, fac2=False, cycle=False,
-              redundant_parent=False, brute=None, trimonly=False, hidden=False, trimrename=False, pfactory2=False, noinf=False, redpar=False, prefix_verified_nested=None, expand2=False):
+              redundant_parent=False, brute=None, trimonly=False, hidden=False, trimrename=False, pfactory2=False, noinf=False, redpar=False, prefix_verified_nested=None, expand2=False, lookahead=False, ow2=None, sym_marked=False):
     inferral = ([MinimizePatterns()] if inf else []) + ([MergeStats()] if merge else []) + ([RenameStats()] if rename else [])
     exp = [ExpandFactory()] if factory else [Expand()]
     if parent_factory:
@@ -1126,6 +1261,8 @@ def make_pack(sym=False, inf=False, merge=False, iterative=False, factory=False,
         exp = [RedundantParentFactory()]
     if redpar:
         exp = [RedundantParentExpandFactory(), ExpandMinimal()]
+    if lookahead:
+        exp = [LookaheadFactory()]
     expansion = [exp]
     if two_sets:
         expansion = [[RemoveFront()], exp] if no_initial else [exp, [ExpandFactory()]]
@@ -1155,6 +1292,12 @@ def make_pack(sym=False, inf=False, merge=False, iterative=False, factory=False,
     if lazy and not no_initial:
         # not ignore_parent: the queue must still hand out the strict strategy for the same class afterwards
         initial = [RemoveFrontLazy(ignore_parent=False)] + initial
+    if ow2 == "a":    # the one-way strategy first in pack order (initial), the two-way one later (expansion)
+        initial = [MinimizeOneWay()] + initial
+        expansion = [expansion[0] + [MinimizePatterns(ignore_parent=False)]] + expansion[1:]
+    elif ow2 == "b":  # the two-way strategy first, the one-way one later: the same key ends up in both stores
+        initial = [MinimizePatterns(ignore_parent=False)] + initial
+        expansion = [expansion[0] + [MinimizeOneWay()]] + expansion[1:]
     return StrategyPack(initial_strats=initial, inferral_strats=inferral,
                         expansion_strats=expansion, ver_strats=ver, name=nm,
-                        symmetries=([Swap()] if sym else []) + ([Cycle()] if cycle else []), iterative=iterative)
+                        symmetries=([SwapMarked()] if sym_marked else [Swap()] if sym else []) + ([Cycle()] if cycle else []), iterative=iterative)
